@@ -418,10 +418,16 @@ struct PolCont
 	static bool canContinueInvoking(int, Ctl & c, Payload p) { faultPoint(F_CALL); FaultOff off; p.alive("policy argument"); return !c.stop; }
 };
 
+// the same policy RETURNING A REFERENCE (used by the dispatcher of this variant): it must be honoured like the by-value one
+struct PolContRef
+{
+	static const bool & canContinueInvoking(int, Ctl & c, const Payload & p) { faultPoint(F_CALL); FaultOff off; p.alive("policy argument"); static const bool yes = true, no = false; return c.stop ? no : yes; }
+};
+
 struct ContInterp : Sink
 {
 	typedef eventpp::CallbackList<void (int, Ctl &, Payload), PolCont> L;
-	typedef eventpp::EventDispatcher<int, void (int, Ctl &, Payload), PolCont> D;
+	typedef eventpp::EventDispatcher<int, void (int, Ctl &, Payload), PolContRef> D;
 	const Plan & plan;
 	seq::Violation viol;
 	L * list; D * disp;
